@@ -276,6 +276,11 @@ func (f *File) Fd() uintptr  { return f.f.Fd() }
 
 func (f *File) Write(b []byte) (int, error) {
 	p := f.path
+	if f == Stderr {
+		// the diagnostic channel itself is never failed: a moq that cannot
+		// report has nothing left to be checked against
+		return f.f.Write(b)
+	}
 	if r := match("write", p); r != nil {
 		n := 0
 		if r.Action == "short" || r.Action == "crash" {
@@ -297,9 +302,7 @@ func (f *File) Write(b []byte) (int, error) {
 		return done, err
 	}
 	n, err := f.f.Write(b)
-	if !(f.std && f == Stderr) {
-		logOp(LogEntry{Prim: "write", Path: p, N: len(b), Done: n, Err: errStr(err)})
-	}
+	logOp(LogEntry{Prim: "write", Path: p, N: len(b), Done: n, Err: errStr(err)})
 	return n, err
 }
 
